@@ -299,7 +299,15 @@ class PyEngine:
 
     def e_Tuple(self, n, st):
         if any(isinstance(e, ast.Starred) for e in n.elts):
-            raise Unsupported('starred tuple')
+            # (*seq, a, b): a sequence value
+            outs = []
+            for s, vals in self.ev_seq([e.value if isinstance(e, ast.Starred) else e for e in n.elts], st):
+                seq = SeqV(z3.IntVal(0), lambda i: OpaqueV('empty'))
+                for e, v in zip(n.elts, vals):
+                    part = self.to_seq(s, v) if isinstance(e, ast.Starred) else SeqV(z3.IntVal(1), lambda i, v=v: v)
+                    seq = self.concat(seq, part)
+                outs.append((s, seq))
+            return outs
         return [(s, TupV(tuple(vals))) for s, vals in self.ev_seq(n.elts, st)]
 
     def e_List(self, n, st):
@@ -656,6 +664,10 @@ class PyEngine:
         raise Unsupported(f'call of {f!r} at L{line} in {self.fn}')
 
     def concat(self, a, b):
+        if z3.is_int_value(z3.simplify(a.len)) and z3.simplify(a.len).as_long() == 0:
+            return b
+        if z3.is_int_value(z3.simplify(b.len)) and z3.simplify(b.len).as_long() == 0:
+            return a
         return SeqV(a.len + b.len, lambda i, a=a, b=b: self.ite(i < a.len, a.at(i), b.at(i - a.len)))
 
     def call_function(self, st, f: FuncV, args, kwargs, n):
@@ -870,8 +882,22 @@ class PyEngine:
             if isinstance(v, TupV) and len(v.items) == len(target.elts):
                 for t, x in zip(target.elts, v.items):
                     self.assign(st, t, x)
+            elif isinstance(v, SeqV):
+                k = len(target.elts)
+                s_bad = st.clone()
+                self.assume(s_bad, v.len != k)
+                if self.feasible(s_bad):
+                    self.throw(s_bad, 'ValueError', getattr(target, 'lineno', 0), 'unpack')
+                self.assume(st, v.len == k)
+                for i, t in enumerate(target.elts):
+                    self.assign(st, t, v.at(z3.IntVal(i)))
             else:
                 raise Unsupported(f'unpack {v!r}')
+        elif isinstance(target, ast.Attribute) and isinstance(target.value, ast.Name) and \
+                st.env.lookup(target.value.id) is not None and isinstance(st.env.get(target.value.id), StructV):
+            old = st.env.get(target.value.id)
+            fields = tuple((k, x) for k, x in old.fields if k != target.attr) + ((target.attr, v),)
+            self.assign(st, target.value, StructV(old.kind, fields))
         elif isinstance(target, ast.Subscript):
             (s2, base), = self.ev(target.value, st)
             (s3, key), = self.ev(target.slice, st)
